@@ -18,7 +18,7 @@ AUDIT_INPUT_FILES = True   # after every case the driver verifies that the synth
 PROPERTY = "C08"
 LEVEL = "exploration"
 CLAIM = {
-    "text": "Exploration by runtime monitoring: every API that returns a container or writes a file (read_block incl. fch1=/nchans=, read_dedisp_block, collapse, bandpass, read_chan, dedisperse, invert_freq, downsample, extract_samps/chans/bands, subband, apply_channel_mask, remove_zerodm, FilterbankBlock.downsample/dedisperse/get_tim/to_file, TimeSeries.downsample/pad/to_tim) is driven over six channelisations (foff of either sign, non-dyadic widths, non-representable fch1) with random sub-ranges and parameters on inputs whose samples are labelled 64*t+c; the monitor decodes which input time indices and channels are present in the output and checks the output header's nsamples/nchans/nbits/tsamp/tstart (5 us, exact rational reference)/dm and per-channel frequency labels against them. Regimes added: observations crossing UTC midnight, unsorted adjacent channel runs with small batch sizes; input files are re-hashed after every case. Rounds 7-8 added: PulseExtractor windows near the start, middle and end of the file and pad_samples with front padding, up to 32 sub-bands, dedispersed blocks in which channels arrive before the first one (negative DM / ascending band), and a channel window one past the band.",
+    "text": "Exploration by runtime monitoring: every API that returns a container or writes a file (read_block incl. fch1=/nchans=, read_dedisp_block, collapse, bandpass, read_chan, dedisperse, invert_freq, downsample, extract_samps/chans/bands, subband, apply_channel_mask, remove_zerodm, FilterbankBlock.downsample/dedisperse/get_tim/to_file, TimeSeries.downsample/pad/to_tim) is driven over six channelisations (foff of either sign, non-dyadic widths, non-representable fch1) with random sub-ranges and parameters on inputs whose samples are labelled 64*t+c; the monitor decodes which input time indices and channels are present in the output and checks the output header's nsamples/nchans/nbits/tsamp/tstart (5 us, exact rational reference)/dm and per-channel frequency labels against them. Regimes added: observations crossing UTC midnight, unsorted adjacent channel runs with small batch sizes; input files are re-hashed after every case. Rounds 7-8 added: PulseExtractor windows near the start, middle and end of the file and pad_samples with front padding, up to 32 sub-bands, dedispersed blocks in which channels arrive before the first one (negative DM / ascending band), and a channel window one past the band. Round 11 added: the .tim products of an 8-bit observation (collapse/read_chan/dedisperse -> to_tim) judged on declared depth, sample count and read-back.",
     "design_ref": "DESIGN.md section 3 (C08)",
     "note": "Trusted: fractions.Fraction for the tstart reference, vlib/sigfile.py parser, float64 label decoding (values < 2^24). tstart is judged for every product of a sub-range (start > 0). Labels of summed/averaged channels must lie within the closed span of the contributing input channel centres.",
     "technique": "runtime monitoring: labelled-sample provenance oracle (decode which input rows are in the output) vs output header fields",
